@@ -222,6 +222,23 @@ theorem daemonRun_foldl (steps : List Step) (st : Option Catalog) (f : Key → O
     exact ih (daemonStep st s) (fun k => Spec.Reload.specStep (f k) (viewOf k s)) (daemonStep_inv st s h)
       (fun k => by rw [daemonStep_served st s h k, hf k])
 
+/-! ### the signal loop with explicit plumbing -/
+
+theorem loopStep_good (alt : Catalog) (s : Option Catalog) (step : Step) :
+    loopStep .good alt ⟨s, s⟩ step = ⟨daemonStep s step, daemonStep s step⟩ := by
+  cases step with
+  | configError => rfl
+  | reload zones fs => cases s <;> rfl
+
+/-- a loop that installs and threads every catalog it builds is the idealised daemon -/
+theorem loopRun_good (alt : Catalog) (steps : List Step) :
+    loopRun .good alt steps = ⟨daemonRun steps, daemonRun steps⟩ := by
+  unfold loopRun daemonRun
+  generalize (none : Option Catalog) = s
+  induction steps generalizing s with
+  | nil => rfl
+  | cons st r ih => simp only [List.foldl_cons, loopStep_good, ih]
+
 /-- longest-suffix search commutes with reading entries as zone states -/
 theorem lsuf_map {α β : Type} (g : α → β) (f : Key → Option α) (cls : Nat) (n : SName) :
     (lsuf f cls n).map g = lsuf (fun k => (f k).map g) cls n := by
